@@ -15,7 +15,7 @@ PROP = "C04"
 LEVEL = "exploration"
 RULE = (
     "complete enumeration of (output depth, in-memory dtype, nsamps, nchans, value class) for prep_outfile/cwrite, of "
-    "(nchans, nsamps) for FilterbankBlock.to_file, of every composition of ns samples into consecutive cwrite calls on one writer, and of all series lengths 1..Lmax x value classes for .tim, .dat/.inf, "
+    "(nchans, nsamps) for FilterbankBlock.to_file, of every composition of ns samples into consecutive cwrite calls on one writer, one write of 2**20 + 12 350 elements per (depth, dtype) alone and followed by a short write, and of all series lengths 1..Lmax x value classes for .tim, .dat/.inf, "
     ".spec, .fft/.inf (series headers carrying the depth of a parent filterbank: 32, 8, 16, 2); each call either raises (refusal) or the file has exactly hdrlen + n*C*nbits/8 bytes and reads back "
     "bit-identical with tsamp/tstart/dm preserved. Non-trivial = in-memory dtype differs from the on-disk type, or a "
     "sub-byte depth, or a series of length >= 2"
@@ -25,7 +25,7 @@ ASSUMPTIONS = [
     "textual .inf metadata compared to 1e-12 relative (tsamp, dm) and 1e-10 d (tstart)",
     "header.nsamples of a spectrum is not asserted (the statement does not define it)",
 ]
-REQUIRED_OUTCOMES = ["cwrite/roundtrip", "cwrite/sequence_roundtrip", "cwrite/refused", "block/roundtrip", "tim/roundtrip", "dat/roundtrip", "spec/roundtrip", "fft/roundtrip"]
+REQUIRED_OUTCOMES = ["cwrite/roundtrip", "cwrite/sequence_roundtrip", "cwrite/large_roundtrip", "cwrite/refused", "block/roundtrip", "tim/roundtrip", "dat/roundtrip", "spec/roundtrip", "fft/roundtrip"]
 
 DTYPES = ["uint8", "uint16", "int64", "float32", "float64"]
 
@@ -176,6 +176,39 @@ def _cwrite(wd, shard, ctx, res, only):
         if _verify_fil(out, vals.reshape(ns, C), nb, src, res, case, "FileWriter.cwrite (sequence of calls)", dm=12.5):
             res.outcome("cwrite/sequence_roundtrip")
             res.nontrivial += 1
+    # scale lane: one write of more than 2**20 elements (not a multiple of 2**20) per in-memory dtype, alone and followed by a short second write
+    C = chans[-1]
+    ns_big = ((1 << 20) + 12347) // C + 1
+    bigs = [[dtype, ns_big, tail] for dtype in DTYPES for tail in (0, 5)]
+    if only is not None:
+        bigs = [only[1:]] if only[0] == "big" else []
+    for dtype, ns, tail in bigs:
+        vals = _values(nb, dtype, (ns + tail) * C, "ramp", ctx.seed)
+        if vals is None:
+            continue
+        res.evaluations += 1
+        case = {"shard": shard, "inner": ["big", dtype, ns, tail]}
+        if C not in hdrs:
+            hdrs[C] = _mk_header(wd, C, 8, dm=12.5)
+        src = hdrs[C]
+        out = str(wd / "outbig.fil")
+        done = 0
+        try:
+            w = src.prep_outfile(out, nbits=nb)
+            w.cwrite(vals[: ns * C])
+            done = 1
+            if tail:
+                w.cwrite(vals[ns * C :])
+            w.close()
+        except Exception as e:  # noqa: BLE001
+            if not done:
+                res.outcome("cwrite/refused")
+                continue
+            res.violation({"site": "FileWriter.cwrite", "symptom": f"raised {type(e).__name__} after earlier writes of the same dtype succeeded"}, case, repr(e))
+            continue
+        if _verify_fil(out, vals.reshape(ns + tail, C), nb, src, res, case, "FileWriter.cwrite (more than 2**20 elements)", dm=12.5):
+            res.outcome("cwrite/large_roundtrip")
+            res.nontrivial += 1
     res.sample({"path": "cwrite", "nbits": nb, "case": ["float32", 2, chans[0], "ramp"]}, cap=1)
 
 
@@ -211,7 +244,7 @@ def _verify_fil(out, X, nb, src, res, case, site, dm=0.0) -> bool:
     want = X.T.astype(np.float32)
     if blk.data.shape != want.shape or not np.array_equal(blk.data, want):
         res.violation({"site": site, "symptom": "values read back differ", "nbits": nb}, case,
-                      f"wrote {X.tolist()} read {np.asarray(blk.data).T.tolist()}")
+                      f"wrote {X[:8].tolist()} read {np.asarray(blk.data).T[:8].tolist()} (first 8 of {ns} samples)")
         return False
     if hdr.tsamp != src.tsamp or hdr.tstart != src.tstart or hdr.dm != dm:
         res.violation({"site": site, "symptom": "timing metadata changed"}, case,
